@@ -66,7 +66,122 @@ def c10_injective(E, maxlen=2):
         E.prove(frev(s) != frev(t), "escape-is-injective", kind=kind, s=s, t=t, cls=_cls(s + t))
 
 
+# ----------------------------------------------------------------------------- document layer (DESIGN 10.5)
+def _norm_annotation(o):
+    """cobrapy's SBML annotation format stores a provider's single identifier as a string and several as a list: compare
+    annotation values as lists of identifiers"""
+    for kind in ("rxn", "met", "gene", "group"):
+        for d in o.get(kind, {}).values():
+            if isinstance(d, dict) and isinstance(d.get("annotation"), dict):
+                d["annotation"] = {k: ([v] if isinstance(v, str) else v) for k, v in d["annotation"].items()}
+    return o
+
+
+def c10_document(E, with_groups=("none", "reactions+metabolites")):
+    """write_sbml_model / read_sbml_model through the real _model_to_sbml and _sbml_to_model with symbolic stoichiometric
+    coefficients, bounds and objective coefficient.  Symbolic paths run on the libsbml stand-in (vlib/fakesbml.py), their
+    witnesses on the real libsbml, where the written document is also put to validate_sbml_model."""
+    import io
+    import cobra
+    from cobra.core import Group
+    from cobra.io import read_sbml_model, validate_sbml_model, write_sbml_model
+    from vlib import env
+    from vlib.observe import observe, same
+    from vlib.ops import base_model
+    env.for_path(E)
+    cfgb = E.pick("config_bounds", [(-1000.0, 1000.0), (-10.0, 10.0)])
+    cfg = cobra.Configuration()
+    old = cfg.bounds
+    cfg.bounds = cfgb
+    try:
+        m = base_model(E, groups=False)
+        r1 = m.reactions.R1
+        kind = E.pick("bounds_kind", ["finite", "ub=+inf", "lb=-inf", "both-inf", "ub=0", "lb=default-lb", "ub=default-ub"])
+        if kind == "ub=+inf":
+            r1.bounds = (r1.lower_bound, float("inf"))
+        elif kind == "lb=-inf":
+            r1.bounds = (float("-inf"), r1.upper_bound)
+        elif kind == "both-inf":
+            r1.bounds = (float("-inf"), float("inf"))
+        elif kind == "ub=0":
+            r1.bounds = (min(-1.0, cfgb[0]), 0.0)
+        elif kind == "lb=default-lb":
+            r1.bounds = (cfgb[0], float("inf"))
+        elif kind == "ub=default-ub":
+            r1.bounds = (float("-inf"), cfgb[1])
+        oc = E.real("objective_coefficient_R1", -5, 5)
+        m.objective = {m.reactions.DM_B: 1, r1: oc}
+        direction = E.pick("direction", ["max", "min"])
+        m.objective_direction = direction
+        m.metabolites.B.charge = E.pick("charge_B", [0, -2])
+        m.metabolites.P.charge = 1
+        m.metabolites.B.formula = E.pick("formula_B", [None, "H2O"])
+        for g in m.genes:
+            g.name = "gene " + g.id
+        m.genes.g1.annotation = {"ncbigene": ["1", "2"]}
+        m.metabolites.B.annotation = {"kegg.compound": "C2", "sbo": "SBO:0000247"}
+        m.reactions.EX_A.annotation = {"sbo": "SBO:0000627"}
+        m.notes = {"k": "v"}
+        grp = E.pick("groups", list(with_groups))
+        if grp != "none":
+            m.add_groups([Group("G1", name="group one", members=[m.reactions.R1, m.metabolites.A], kind="partonomy"),
+                          Group("G2", name="second", members=[m.reactions.R2], kind="collection")])
+        E.note(direction=direction, config_bounds=str(cfgb), bounds_kind=kind, groups=grp)
+        a = observe(m)
+        number = env.Float if E.symbolic else float
+        try:
+            f = io.StringIO()
+            write_sbml_model(m, f)
+            text = f.getvalue()
+            m2 = read_sbml_model(io.StringIO(text), number=number)
+        except vsym_Concretized:
+            raise
+        except Exception as e:
+            E.prove(False, "export-and-import-do-not-fail", exc=type(e).__name__, msg=str(e)[:200])
+            return
+        E.prove(True, "export-and-import-do-not-fail")
+        same(E, a, observe(m), "writing-leaves-the-model-alone")
+        if not E.symbolic:
+            _, errors = validate_sbml_model(io.StringIO(text))
+            bad = {k: v[:2] for k, v in errors.items() if v and k in ("SBML_FATAL", "SBML_ERROR", "SBML_SCHEMA_ERROR", "COBRA_FATAL", "COBRA_ERROR")}
+            E.prove(not bad, "written-document-validates", errors=str(bad)[:300])
+        b = observe(m2)
+        skip = ("index_ok",)
+        for o in (a, b):
+            _norm_annotation(o)
+            for d in o.get("rxn", {}).values():
+                if isinstance(d, dict):
+                    d.pop("subsystem", None)        # on import a reaction's subsystem is taken from its group (documented)
+        same(E, a, b, "roundtrip=same-model", skip=skip, what="sbml")
+        try:
+            f2 = io.StringIO()
+            write_sbml_model(m2, f2)
+            m3 = read_sbml_model(io.StringIO(f2.getvalue()), number=number)
+        except vsym_Concretized:
+            raise
+        except Exception as e:
+            E.prove(False, "second-roundtrip-is-identity", exc=type(e).__name__)
+            return
+        c = observe(m3)
+        b2 = observe(m2)
+        for o in (b2, c):
+            _norm_annotation(o)
+        same(E, b2, c, "second-roundtrip-is-identity", skip=skip, what="sbml")
+    finally:
+        cfg.bounds = old
+
+
+from vlib.vsym import Concretized as vsym_Concretized  # noqa: E402
+
+
 HARNESSES = [
+    H("c10_document", c10_document, quick=dict(max_paths=20000, time_budget=70), thorough=dict(max_paths=200000, time_budget=400),
+      witness_every=25,
+      bounds="base model (5 reactions, 3 metabolites, 3 genes); R1 with symbolic coefficients [1/4,4], bounds in [-2000,2000] or "
+             "infinite / 0 / configured default by choice, symbolic objective coefficient in [-5,5]; direction max/min; "
+             "Configuration().bounds (-1000,1000)/(-10,10); charge / formula / annotation / notes tables; groups of reactions and "
+             "metabolites or none; default F_REPLACE id escaping; libsbml replaced by a documented stand-in on symbolic paths, "
+             "the real libsbml (plus validate_sbml_model) on every 25th path's witness"),
     H("c10_enumerate", c10_enumerate, tiers=("quick",), quick=dict(max_paths=40000, time_budget=60), witness_every=500,
       bounds="every string of length 1..4 over the class alphabet %r (letter, prefix letter, digits, '_', '.', 2-digit-code, "
              "3-digit-code, non-ASCII 3- and 4-digit-code characters, blank); 4 id kinds" % ALPHABET),
